@@ -8,6 +8,7 @@ Every external tool runs under `timeout` and an address-space limit.
 """
 import hashlib
 import json
+import copy
 import os
 import re
 import resource
@@ -377,6 +378,23 @@ def run_job1(job, tier='quick', want_trace=False, keep=None, select=None):
             return res
         cur = a
         step = 0
+        if any('.*:' in u for u in job.unwindset):
+            # 'FUNC.*:N' = every loop of FUNC gets bound N (loop ids enumerated from the binary)
+            rc, so, se, dt, st = run_tool(['cbmc', '--show-loops', a], scratch, 120, 4)
+            ids = re.findall(r'^Loop (\S+):', so or '', re.M)
+            exp = []
+            for u in job.unwindset:
+                if '.*:' in u:
+                    fn, n = u.split('.*:')
+                    mine = [i for i in ids if i.rsplit('.', 1)[0] == fn]
+                    if not mine:
+                        res['messages'].append('unwindset %s: function has no loops in the binary' % u)
+                        return res
+                    exp += ['%s:%s' % (i, n) for i in mine]
+                else:
+                    exp.append(u)
+            job = copy.copy(job)
+            job.unwindset = exp
 
         def gi(args):
             nonlocal cur, step
